@@ -126,7 +126,7 @@ def corpus_check(ctx, h, collect=False):
     """Decode the committed packets with the tree under test at every output rate / channel count and compare with the
     committed reference PCM (produced once by the unchanged tree at 48 kHz) using the repo's own opus_compare."""
     res = {'streams': 0, 'comparisons': 0, 'min_q': None, 'exact_48k': 0, 'fails': [], 'notes': [], 'all_q': {}}
-    idx = os.path.join(CORPUS, 'streams.txt')
+    idx = os.path.join(CORPUS, 'streams.txt.gz')
     if not os.path.exists(idx):
         res['notes'].append('no corpus committed')
         return res
@@ -135,7 +135,7 @@ def corpus_check(ctx, h, collect=False):
     work = os.path.join(common.scratch(), 'c03corpus')
     os.makedirs(work, exist_ok=True)
     ref_all = gzip.open(os.path.join(CORPUS, 'ref48.s16.gz'), 'rb').read()
-    streams = _parse_streams(open(idx).read())
+    streams = _parse_streams(gzip.open(idx, 'rt').read())
     pos = 0
     for st in streams:
         nbytes = st['samples48'] * 2 * st['refch']
@@ -175,8 +175,9 @@ def corpus_check(ctx, h, collect=False):
                     res['exact_48k'] += 1
                 if rc != 0 or q is None:
                     mm = re.search(r'weighted error is ([-\d.eE+]+)', out)
-                    res['fails'].append({'key': key, 'why': 'opus_compare: FAILS (%s), baseline quality on the unchanged tree was %.1f %%'
-                                                 % (('internal weighted error ' + mm.group(1)) if mm else out.strip()[-200:], base['q'])})
+                    res['fails'].append({'key': key, 'why': 'opus_compare: FAILS (%s), baseline quality on the unchanged tree was %.1f %%; %s'
+                                                 % (('internal weighted error ' + mm.group(1)) if mm else out.strip()[-200:], base['q'],
+                                                    _first_pcm_diff(h, pk, ref, work))})
                 else:
                     if res['min_q'] is None or q < res['min_q']:
                         res['min_q'] = q
@@ -184,6 +185,24 @@ def corpus_check(ctx, h, collect=False):
                         res['notes'].append('%s: quality %.1f %% is more than 5 points below the baseline %.1f %% (still within the RFC threshold)'
                                             % (key, q, base['q']))
     return res
+
+
+def _first_pcm_diff(h, pk, ref, work):
+    """Where the 48 kHz stereo decode of the stream first leaves the committed reference PCM (and by how much at most)."""
+    import array
+    outp = os.path.join(work, 'diff.s16')
+    rc, out = common.sh([h, 'corpusdec', pk, '48000', '2', outp])
+    if rc != 0:
+        return 'decode at 48 kHz stereo failed'
+    a = array.array('h'); a.frombytes(open(outp, 'rb').read())
+    b = array.array('h'); b.frombytes(ref)
+    n = min(len(a), len(b))
+    first = next((i for i in range(n) if a[i] != b[i]), None)
+    if first is None:
+        return '48 kHz stereo decode is bit-exact (%d vs %d samples)' % (len(a) // 2, len(b) // 2)
+    mx = max(abs(a[i] - b[i]) for i in range(first, n))
+    return ('48 kHz stereo decode first differs from the reference PCM at sample %d (t = %.1f ms), max |pcm - ref| = %d'
+            % (first // 2, first / 2 / 48.0, mx))
 
 
 def _parse_streams(txt):
@@ -221,7 +240,10 @@ def search(ctx):
                     'observed': 'exit code %d: %s' % (rc, out[-400:]), 'why': 'the implementation trapped during the final-range search'})
     cor = corpus_check(ctx, h)
     for f in cor['fails'][:5]:
-        wit.append({'suite': 'silksyms-corpus', 'input': 'corpus stream/rate/channels ' + f['key'],
+        wit.append({'suite': 'silksyms-corpus',
+                    'input': 'corpus/C03 stream/output rate/channels %s (packets: the `S %s` block of corpus/C03/streams.txt.gz; decode with '
+                             '`c03_silksyms corpusdec`, compare with src/opus_compare.c against corpus/C03/ref48.s16.gz)'
+                             % (f['key'], f['key'].split('/')[0]),
                     'expected': 'decoded PCM within the opus_compare threshold of the committed self-reference PCM (regression oracle)',
                     'observed': f['why'],
                     'why': 'decoded PCM of a committed packet stream left the RFC 6716 opus_compare tolerance relative to the PCM the '
